@@ -98,6 +98,10 @@ def main(argv):
     mod = importlib.import_module(f"vf.props.{pid.lower()}")
     spec = mod.spec(tier)
     findings, fixed_entries = load_known(pid)
+    only = os.environ.get("VERIF_ONLY")
+    if only:
+        import re as _re
+        spec.obligations = [o for o in spec.obligations if _re.search(only, o.name)]
 
     # ---- known findings: replay their stored inputs first -------------------
     live_findings = []
